@@ -2,31 +2,24 @@ import RichModel.Model.ColorParse
 import RichModel.Model.Style
 import RichModel.Model.Markup
 import RichModel.Model.Theme
-import RichModel.Gen.PyLower
-import RichModel.Gen.PyDigits
-import RichModel.Gen.TextTables
 import RichModel.Gen.DefaultStyleNames
 /-!
 Model for property C14 — the *exception layer* of the public string entry points of rich:
 
-* `Color.parse`        rich/color.py:389-440   → `UColor.parse`
-* `Style.parse`        rich/style.py:404-492   → `UStyle.parse`   (+ `Style.__init__`'s `_make_color`)
-* `Style.normalize`    rich/style.py:318-333   → `UStyle.normalize`
+* `Color.parse`        rich/color.py:389-440   → `UColor.parse`   = C06's `Color.parseT`
+* `Style.parse`        rich/style.py:404-492   → `UStyle.parse`   = C06's `Style.parseT`
+* `Style.normalize`    rich/style.py:318-333   → `UStyle.normalize` = C06's `Style.normalizeT`
 * `markup.render`      rich/markup.py:91-160   → `renderE`        (C04's tokenizer / stack machine, with a
                                                   `normalize` that can raise)
 * `Console.get_style`  rich/console.py:1001-1027 → `getStyle`     (C20's `Theme.getStyle` over `UStyle.parse`)
-* `Console.render_str(markup=False)` + `Console.print(str, markup=False)` → `printPlain`
+* `Console.print(str, markup=False)` → `printPlainE` in `Model/TotalityPrint.lean`
 
-WHY THIS FILE EXISTS BESIDE `Model/ColorParse.lean` / `Model/Style.lean` (C06).  Those model Python's
-`str.lower / strip / split`, `\d`, `\s` and `int()` **for ASCII text only** (the C06 driver answers
-`unmodelled` for anything else).  The statement of C14 is over *all* strings, and the escapes it is
-about live exactly in the gap between the Unicode-aware character classes (`\d` admits "٣", `\s`
-admits U+001C..U+001F and U+3000, `str.lower()` maps the KELVIN SIGN to "k") and what `int()` accepts.
-So the parsers are modelled again here over arbitrary code points, parameterised by the runtime's
-character tables (`PyStr`); the theorems hold **for every** such table, the driver instantiates the
-tables generated from the running Python (`Gen.PyLower`, `Gen.PyDigits`, `Gen.TextTables`).
-C06's data types (`Color`, `Style`, `StyleErr`), its `RE_COLOR` helpers and `Style.str` are reused as
-they are; `Lemmas/Totality.lean` proves that with the ASCII tables the parsers here *are* C06's.
+SINGLE SOURCE.  The parsers are C06's (`Model/ColorParse.lean`, `Model/Style.lean`), which since the deepening round are
+parameterised by the running Python's character tables over ALL code points (`StrTables`: `str.isspace` / `\s`, `\d` with
+the digit values of `int()`, `str.lower`, the `int()` digit limit — the design this file introduced as `PyStr` in round 1,
+when C06's model covered ASCII only).  Nothing is modelled twice: this file only maps C06's error type to the exception
+classes observed at the entry points (`Exc`) and selects the code variant by the one flag C14 owns (`vErr`: F9).
+The theorems of C14 hold for **every** `StrTables` (no lawfulness assumption); the driver instantiates `StrTables.real`.
 
 C04's markup model takes `Style.normalize` as a total function parameter; the real one can raise
 (`[rgb(1,,2)]x` → `ValueError`, pre-finding F9).  `renderE` is C04's render loop with a `normalize`
@@ -52,6 +45,8 @@ inductive Exc where
   | missingStyle
   /-- `ValueError` — undocumented everywhere in this file -/
   | valueError
+  /-- `StopIteration` (C06's `Style.chain` on an empty iterable; not reachable from the parsers) -/
+  | stopIteration
 deriving Repr, BEq, DecidableEq, Inhabited
 
 def Exc.name : Exc → String
@@ -60,226 +55,58 @@ def Exc.name : Exc → String
   | .markupError => "MarkupError"
   | .missingStyle => "MissingStyle"
   | .valueError => "Other:ValueError"
+  | .stopIteration => "Other:StopIteration"
+
+/-- C06's error type as the exception classes -/
+def ofStyleErr : StyleErr → Exc
+  | .colorParse => .colorParseError
+  | .styleSyntax => .styleSyntaxError
+  | .valueError => .valueError
+  | .stopIteration => .stopIteration
+
+def liftS {α : Type} : Except StyleErr α → Except Exc α
+  | .ok a => .ok a
+  | .error e => .error (ofStyleErr e)
 
 /-! ## The running Python's character tables -/
 
-/-- Facts about `str` of the running interpreter.  Every theorem of C14 holds for all values. -/
-structure PyStr where
-  /-- `str.isspace` = regex `\s` = what `str.strip()` / `str.split()` remove -/
-  isSpace : Char → Bool
-  /-- regex `\d` = `str.isdecimal`: the digit value `int()` gives the character -/
-  decimal : Char → Option Nat
-  /-- `str.lower()` -/
-  lower : List Char → List Char
-  /-- `sys.get_int_max_str_digits()` (0 = no limit) -/
-  maxDigits : Nat
+/-- The character tables of the interpreter: C06's `StrTables` (the name of round 1 is kept). -/
+abbrev PyStr := StrTables
 
-/-- The tables restricted to ASCII: C06's modelled domain. -/
-def PyStr.ascii : PyStr :=
-  { isSpace := AsciiStr.isSpace
-    decimal := fun c => if AsciiStr.isDigit c then some (c.toNat - 48) else none
-    lower := AsciiStr.lower
-    maxDigits := 4300 }
+/-- The tables restricted to ASCII. -/
+abbrev PyStr.ascii : PyStr := StrTables.ascii
 
 namespace Py
-
-def inRuns (rs : List (Nat × Nat × Nat)) (n : Nat) : Option Nat :=
-  (rs.find? fun r => r.1 ≤ n && n ≤ r.2.1).map fun r => r.2.2 + (n - r.1)
-
-/-- `chr(cp).lower()` from the generated table (context-free part). -/
-def lowerChar (c : Char) : List Char :=
-  match Gen.pyLowerSpecial.find? fun p => p.1 == c.toNat with
-  | some p => p.2.map Char.ofNat
-  | none =>
-    match inRuns Gen.pyLowerRuns c.toNat with
-    | some t => [Char.ofNat t]
-    | none => [c]
-
 /-- the tables of the running Python (driver instance) -/
-def real : PyStr :=
-  { isSpace := fun c => Gen.pyWhitespace.contains c.toNat
-    decimal := fun c => inRuns Gen.pyDecimalRuns c.toNat
-    lower := fun s => s.flatMap lowerChar
-    maxDigits := Gen.pyMaxStrDigits }
-
+abbrev real : PyStr := StrTables.real
 /-- strings whose `lower()` the table cannot give (final-sigma rule) -/
-def lowerUnmodelled (s : List Char) : Bool := s.any fun c => Gen.pyLowerContext.contains c.toNat
-
+abbrev lowerUnmodelled (s : List Char) : Bool := StrTables.lowerUnmodelled s
 end Py
+
+/-- the code variant: everything repaired (what /repo contains) except, when `vErr`, F9 -/
+def variantOf (vErr : Bool) : StyleVariant := { StyleVariant.fixed with rgbValueError := vErr }
 
 variable (P : PyStr)
 
-/-! ## `str.strip`, `str.split`, `int` over all code points -/
-
 /-- `str.strip()` -/
-def strip (s : List Char) : List Char := Markup.pyStrip P.isSpace s
+abbrev strip (s : List Char) : List Char := P.strip s
+/-- `str.split()` -/
+abbrev split (s : List Char) : List (List Char) := P.split s
+/-- `int(s)` for a string of `\d` and `\s` characters; `none` = `ValueError` -/
+abbrev pyInt (s : List Char) : Option Nat := P.pyInt s
 
-/-- loop of `str.split()` (no argument) -/
-def splitAux : List Char → List Char → List (List Char)
-  | [], cur => if cur.isEmpty then [] else [cur]
-  | c :: r, cur =>
-    if P.isSpace c then (if cur.isEmpty then splitAux r [] else cur :: splitAux r [])
-    else splitAux r (cur ++ [c])
-
-/-- `str.split()`: maximal runs of non-white-space characters -/
-def split (s : List Char) : List (List Char) := splitAux P s []
-
-/-- What `int()` strips at both ends.  CPython (`_PyUnicode_TransformDecimalAndSpaceToASCII`) keeps
-every character below 127 as it is and turns the other `str.isspace` characters into a blank; the
-ASCII parser then skips C `isspace` only: TAB LF VT FF CR SPACE — **not** U+001C..U+001F, which
-`\s` admits. -/
-def isIntSpace (c : Char) : Bool :=
-  if c.toNat < 127 then AsciiStr.isIntSpace c else P.isSpace c
-
-/-- one step of reading a decimal string left to right -/
-def intStep (acc : Option Nat) (c : Char) : Option Nat :=
-  match acc, P.decimal c with
-  | some a, some d => some (10 * a + d)
-  | _, _ => none
-
-/-- `int(s)` for a string made of `\d`, `\s` and nothing else (all `RE_COLOR` lets through apart from
-the commas it is split at): strip, then a non-empty run of decimal digits no longer than the
-interpreter's limit.  `none` = `ValueError`. -/
-def pyInt (s : List Char) : Option Nat :=
-  let t := Markup.pyStrip (isIntSpace P) s
-  if t.isEmpty then none
-  else if P.maxDigits ≠ 0 ∧ P.maxDigits < t.length then none
-  else t.foldl (intStep P) (some 0)
-
-/-! ## `Color.parse` -/
+/-! ## `Color.parse`, `Style.parse`, `Style.normalize`: C06's models at the observation point -/
 
 namespace UColor
-
-/-- `RE_COLOR.match(s)` over all code points: `[0-9a-f]` and `[0-9]` are ASCII classes, `[\d\s,]` is not. -/
-def matchRe (s : List Char) : Option ReColor :=
-  match s with
-  | '#' :: rest => if rest.length == 6 && rest.all isHexLower then some (.hex rest) else none
-  | _ =>
-    match dropPrefix? (cl! "color(") s with
-    | some rest =>
-      match dropCloseParen? rest with
-      | some ds => if 1 ≤ ds.length && ds.length ≤ 3 && ds.all AsciiStr.isDigit then some (.color8 ds) else none
-      | none => none
-    | none =>
-      match dropPrefix? (cl! "rgb(") s with
-      | some rest =>
-        match dropCloseParen? rest with
-        | some body =>
-          if 1 ≤ body.length && body.all (fun c => (P.decimal c).isSome || P.isSpace c || c == ',')
-          then some (.rgb body) else none
-        | none => none
-      | none => none
-
-/-- Body of `Color.parse` after `color = color.lower().strip()`.  `vErr = true`: rich 9.10.0 as found, where
-the `ValueError` of `int()` escapes (F9); `false`: the repaired code (fix c34676b, what /repo contains now) raises `ColorParseError`. -/
-def parseNorm (vErr : Bool) (color : List Char) : Except Exc Color :=
-  if color == cl! "default" then .ok { name := color, type := .default }
-  else match ansiColorNumber color with
-  | some n => .ok { name := color, type := numberType n, number := some n }
-  | none =>
-    match matchRe P color with
-    | none => .error .colorParseError
-    | some (.hex six) =>
-      match six with
-      | [a, b, c, d, e, f] =>
-        .ok { name := color, type := .truecolor,
-              triplet := some ⟨16 * hexVal a + hexVal b, 16 * hexVal c + hexVal d, 16 * hexVal e + hexVal f⟩ }
-      | _ => .error .colorParseError   -- unreachable: the scanner returns exactly six characters
-    | some (.color8 ds) =>
-      if decimalVal ds > 255 then .error .colorParseError
-      else .ok { name := color, type := numberType (decimalVal ds), number := some (decimalVal ds) }
-    | some (.rgb body) =>
-      match splitComma body with
-      | [red, green, blue] =>
-        match pyInt P red, pyInt P green, pyInt P blue with
-        | some r, some g, some b =>
-          if r ≤ 255 && g ≤ 255 && b ≤ 255 then
-            .ok { name := color, type := .truecolor, triplet := some ⟨r, g, b⟩ }
-          else .error .colorParseError
-        | _, _, _ => .error (if vErr then .valueError else .colorParseError)
-      | _ => .error .colorParseError
-
-/-- `Color.parse(color)` (color.py:389-440), `lru_cache` assumed transparent. -/
-def parse (vErr : Bool) (color : List Char) : Except Exc Color :=
-  parseNorm P vErr (strip P (P.lower color))
-
+/-- `Color.parse(color)`; `vErr = true`: rich 9.10.0 as found, where the `ValueError` of `int()` escapes (F9). -/
+def parse (vErr : Bool) (color : List Char) : Except Exc Color := liftS (Color.parseT P (variantOf vErr) color)
 end UColor
 
-/-! ## `Style.parse`, `Style.normalize` -/
-
 namespace UStyle
-open Style (ParseState attrIndex kwSet kwVal)
-
-/-- The loop of `Style.parse` (style.py:450-490) over all code points. -/
-def parseLoop (vErr : Bool) : List (List Char) → ParseState → Except Exc ParseState
-  | [], st => .ok st
-  | originalWord :: rest, st =>
-    let word := P.lower originalWord
-    if word == cl! "on" then
-      match rest with
-      | [] => .error .styleSyntaxError                  -- `next(words, "")` is "": "color expected after 'on'"
-      | w :: rest' =>
-        match UColor.parse P vErr w with
-        | .error .colorParseError => .error .styleSyntaxError
-        | .error e => .error e                           -- anything else is not caught
-        | .ok _ => parseLoop vErr rest' { st with bgcolor := some w }
-    else if word == cl! "not" then
-      match rest with
-      | [] => .error .styleSyntaxError                  -- `style_attributes.get("")` is None
-      | w :: rest' =>
-        match attrIndex w with                           -- NB: `w` is not lower-cased
-        | none => .error .styleSyntaxError
-        | some i => parseLoop vErr rest' { st with attributes := st.attributes.set i (some false) }
-    else if word == cl! "link" then
-      match rest with
-      | [] => .error .styleSyntaxError
-      | w :: rest' => parseLoop vErr rest' { st with link := some w }
-    else
-      match attrIndex word with
-      | some i => parseLoop vErr rest { st with attributes := st.attributes.set i (some true) }
-      | none =>
-        match UColor.parse P vErr word with
-        | .error .colorParseError => .error .styleSyntaxError
-        | .error e => .error e
-        | .ok _ => parseLoop vErr rest { st with color := some word }
-
-/-- `_make_color` on an optional colour word (style.py:116). -/
-def makeColor (vErr : Bool) : Option (List Char) → Except Exc (Option Color)
-  | none => .ok none
-  | some w => (UColor.parse P vErr w).map some
-
-/-- `Style(color=color, bgcolor=bgcolor, link=link, **attributes)` (style.py:93-171): the colour
-words are parsed again, `color` before `bgcolor`. -/
-def init (vErr : Bool) (st : ParseState) : Except Exc Style :=
-  match makeColor P vErr st.color with
-  | .error e => .error e
-  | .ok c =>
-    match makeColor P vErr st.bgcolor with
-    | .error e => .error e
-    | .ok b =>
-      let setA := kwSet st.attributes
-      let attrs := if setA ≠ 0 then kwVal st.attributes else 0
-      .ok { color := c, bgcolor := b, attributes := attrs, setAttributes := setA, link := st.link,
-            hash := ⟨c, b, some attrs, some setA, st.link⟩,
-            isNull := !(setA ≠ 0 || st.color.isSome || st.bgcolor.isSome || strTruthy st.link),
-            styleDef := none }
-
-/-- `Style.parse(style_definition)` (style.py:404-492), `lru_cache` assumed transparent. -/
-def parse (vErr : Bool) (styleDefinition : List Char) : Except Exc Style :=
-  if strip P styleDefinition == cl! "none" || styleDefinition.isEmpty then .ok Style.null
-  else
-    match parseLoop P vErr (split P styleDefinition) {} with
-    | .error e => .error e
-    | .ok st => init P vErr st
-
-/-- `Style.normalize(style)` (style.py:318-333): only `StyleSyntaxError` is caught;
-the fallback is `style.strip().lower()`. -/
-def normalize (vErr : Bool) (style : List Char) : Except Exc (List Char) :=
-  match parse P vErr style with
-  | .ok s => .ok (Style.str s)
-  | .error .styleSyntaxError => .ok (P.lower (strip P style))
-  | .error e => .error e
-
+/-- `Style.parse(style_definition)` -/
+def parse (vErr : Bool) (styleDefinition : List Char) : Except Exc Style := liftS (Style.parseT P (variantOf vErr) styleDefinition)
+/-- `Style.normalize(style)` -/
+def normalize (vErr : Bool) (style : List Char) : Except Exc (List Char) := liftS (Style.normalizeT P (variantOf vErr) style)
 end UStyle
 
 /-! ## `markup.render` with a `normalize` that can raise -/
